@@ -639,11 +639,16 @@ def aspect_c13(shape, L, run):
         return 56
     if run.dispatcher.json_config is not run.config:
         return 57
+    # requests may only share state nobody writes: no attribute of the dispatcher is
+    # re-bound by serving a request, and no Config object is published on it (a
+    # per-request configuration cached there would be visible, half-initialised,
+    # to a concurrent request).  Other new attributes (benign caches) are not judged.
     after = dict(run.dispatcher.__dict__)
-    if set(after) != set(run.attrs_before):
-        return 58
     for key, value in run.attrs_before.items():
-        if after[key] is not value:
+        if key not in after or after[key] is not value:
+            return 58
+    for key, value in after.items():
+        if key not in run.attrs_before and isinstance(value, Config):
             return 58
     if run.dispatcher.funcs != run.funcs_before:
         return 59
